@@ -116,6 +116,13 @@ type Spec struct {
 	BindDecl       map[string]string            // type text ("ct.SHA256Hash") -> canonical name of a `var x T` (no value) that no other binding names
 	BindCommaOk    string                       // canonical name of the ok of `_, ok := m[k]`
 	Bind           map[string]string            // call-name prefix -> the name the Spec's keys use for the call's first result (survives a rename of the local)
+	// fourth robustness round (tls worker): every one of these is off unless the unit's Spec sets it
+	PureCalls     []string          // calls that count as pure reads when a local is defined by them (`w := int(info.count)`, `t := x.Elem()`): callee source ("int", "crypto.SHA256.Size") or method suffix (".Elem"); such a local then stands for its definition
+	NegRepl       bool              // a comparison whose negation (`a == b` for the key `a != b`) or mirror image (`b == a`) is a Repl key is translated through that key
+	DropThrough   bool              // an assignment to a field / element of a local that is itself dropped (IgnoreLHS or Lazy-opaque) is dropped too, unless Vars or AppendEffect names it
+	ErrFlow       bool              // statusstate: `return v, err` reports what is known about err on the path (pending ErrCalls error / known nil); `return v, helper(…)` asks whether the helper fails
+	UseEffect     map[string]string // callee name -> "leanVar := … $0 … $1.base …": emitted before any assignment whose right-hand side contains a call of callee; $i = the call's i-th argument, $i.base = the value whose field is passed
+	LoopAnyReturn map[string]string // condition of a `for` loop (normalised source, or "*") -> Lean Bool "some iteration takes one of the loop's returns"; all of them must translate alike
 }
 
 type tr struct {
@@ -130,6 +137,7 @@ type tr struct {
 	flags      map[string]string   // locals initialised to a "not found" literal (`-1`, `false`): candidates for a search loop's flag
 	errKnown   int                 // what is known about `err` on this path: 0 nothing, 1 non-nil, 2 nil (set by the branches of `if err != nil`)
 	retCont    func(t *tr, r *ast.ReturnStmt) string // set while a multi-result helper is inlined: what a `return` of it continues with
+	skipUse    ast.Stmt                              // the assignment whose UseEffect has just been emitted
 }
 
 // saved is the flow-sensitive part of a translator's state; branches that are translated one after the other (then/else with the
@@ -655,6 +663,191 @@ func pureAccess(e ast.Expr) bool {
 	return false
 }
 
+// pureish: pureAccess, or (Spec.PureCalls) a conversion / getter-like call / re-slicing of pure reads.
+func (t *tr) pureish(e ast.Expr) bool {
+	if pureAccess(e) {
+		return true
+	}
+	if len(t.sp.PureCalls) == 0 || e == nil {
+		return false
+	}
+	switch x := e.(type) {
+	case *ast.BasicLit:
+		return true
+	case *ast.SelectorExpr:
+		return t.pureish(x.X)
+	case *ast.ParenExpr:
+		return t.pureish(x.X)
+	case *ast.StarExpr:
+		return t.pureish(x.X)
+	case *ast.SliceExpr:
+		return t.pureish(x.X) && (x.Low == nil || t.pureish(x.Low)) && (x.High == nil || t.pureish(x.High)) && x.Max == nil
+	case *ast.CallExpr:
+		for _, a := range x.Args {
+			if !t.pureish(a) {
+				return false
+			}
+		}
+		name := norm(src(x.Fun))
+		for _, p := range t.sp.PureCalls {
+			if p == name {
+				return true
+			}
+			if sel, ok := x.Fun.(*ast.SelectorExpr); ok && strings.HasPrefix(p, ".") && "."+sel.Sel.Name == p && t.pureish(sel.X) {
+				return true
+			}
+		}
+	}
+	return false
+}
+
+// rootIdent: the local an lvalue path (x.f, x[i], *x, (x)) starts from; "" for a bare identifier or anything else
+func rootIdent(e ast.Expr) string {
+	depth := 0
+	for {
+		switch x := e.(type) {
+		case *ast.SelectorExpr:
+			e = x.X
+		case *ast.IndexExpr:
+			e = x.X
+		case *ast.StarExpr:
+			e = x.X
+		case *ast.ParenExpr:
+			e = x.X
+		case *ast.Ident:
+			if depth == 0 {
+				return ""
+			}
+			return x.Name
+		default:
+			return ""
+		}
+		depth++
+	}
+}
+
+// droppedThrough (Spec.DropThrough): l is a field / element of a local the unit does not follow
+func (t *tr) droppedThrough(l ast.Expr) bool {
+	if !t.sp.DropThrough {
+		return false
+	}
+	r := rootIdent(l)
+	if r == "" || !(t.inIgnoreLHS(r) || t.opaque[r]) {
+		return false
+	}
+	if _, ok := lookup(t.sp.Vars, src(l)); ok {
+		return false
+	}
+	return true
+}
+
+// effectArgs substitutes `$i.base` / `$i` in an effect by the translation of (the value whose field is) the call's i-th argument;
+// the arguments are taken as written (expr applies the aliases once).
+func (t *tr) effectArgs(eff string, call *ast.CallExpr) string {
+	for i := len(call.Args) - 1; i >= 0; i-- {
+		a := call.Args[i]
+		if ph := fmt.Sprintf("$%d.base", i); strings.Contains(eff, ph) {
+			sel, ok := a.(*ast.SelectorExpr)
+			if !ok {
+				failf(a, "effect %s: argument %s is not a field", eff, src(a))
+			}
+			eff = strings.ReplaceAll(eff, ph, t.expr(sel.X))
+		}
+		if ph := fmt.Sprintf("$%d", i); strings.Contains(eff, ph) {
+			v := ""
+			if id, ok := t.subst(a).(*ast.Ident); ok && id.Name == "nil" {
+				if r, ok := t.sp.Repl["nil"]; ok {
+					v = r
+				} else {
+					v = "none"
+				}
+			} else {
+				v = t.expr(a)
+			}
+			eff = strings.ReplaceAll(eff, ph, v)
+		}
+	}
+	return eff
+}
+
+// inlineFails: for a call to a same-file helper whose only result is `error`, the Lean Bool "it returned an error" (errbool mode).
+func (t *tr) inlineFails(c *ast.CallExpr) (string, bool) {
+	if !t.sp.Inline || t.depth > 3 {
+		return "", false
+	}
+	fd, recv := t.resolveHelper(c)
+	if fd == nil || fd.Body == nil || fd.Type.Results == nil || fd.Type.Results.NumFields() != 1 || src(fd.Type.Results.List[0].Type) != "error" {
+		return "", false
+	}
+	sp := t.sp
+	sp.Ret, sp.StateVars, sp.ParamNames, sp.Prelude = "errbool", nil, nil, ""
+	t2, ok := t.bindHelper(fd, recv, c, sp)
+	if !ok {
+		return "", false
+	}
+	// the caller's aliases mean nothing inside the helper (its arguments have been substituted already): a local of the helper that
+	// happens to share a name with an aliased local of the caller (`err`) is its own variable
+	isParam := map[string]bool{}
+	if fd.Recv != nil {
+		for _, f := range fd.Recv.List {
+			for _, n := range f.Names {
+				isParam[n.Name] = true
+			}
+		}
+	}
+	for _, f := range fd.Type.Params.List {
+		for _, n := range f.Names {
+			isParam[n.Name] = true
+		}
+	}
+	for k := range t.aliases {
+		if !isParam[k] && !strings.HasPrefix(k, "idx:") {
+			delete(t2.aliases, k)
+		}
+	}
+	out, done := "", false
+	func() {
+		defer func() {
+			if r := recover(); r != nil {
+				if _, isBail := r.(bail); !isBail {
+					panic(r)
+				}
+				if os.Getenv("EXTRACT_DEBUG") != "" {
+					fmt.Fprintf(os.Stderr, "inlineFails %s: %v\n", fd.Name.Name, r)
+				}
+			}
+		}()
+		out = t2.block(fd.Body.List, "true", "    ")
+		done = true
+	}()
+	if !done {
+		return "", false
+	}
+	return "(!(" + out + "))", true
+}
+
+// negated / mirrored comparison (Spec.NegRepl): the Lean term of `a op b` through a Repl key for `a op' b` or `b op a`
+func (t *tr) negRepl(x *ast.BinaryExpr) (string, bool) {
+	if !t.sp.NegRepl {
+		return "", false
+	}
+	neg := map[token.Token]token.Token{token.EQL: token.NEQ, token.NEQ: token.EQL, token.LSS: token.GEQ, token.GEQ: token.LSS, token.GTR: token.LEQ, token.LEQ: token.GTR}
+	mir := map[token.Token]token.Token{token.EQL: token.EQL, token.NEQ: token.NEQ, token.LSS: token.GTR, token.GTR: token.LSS, token.LEQ: token.GEQ, token.GEQ: token.LEQ}
+	if _, ok := neg[x.Op]; !ok {
+		return "", false
+	}
+	if r, ok := lookup(t.sp.Repl, src(&ast.BinaryExpr{X: x.Y, Op: mir[x.Op], Y: x.X})); ok {
+		return r, true
+	}
+	if r, ok := lookup(t.sp.Repl, src(&ast.BinaryExpr{X: x.X, Op: neg[x.Op], Y: x.Y})); ok {
+		return "(!" + r + ")", true
+	}
+	if r, ok := lookup(t.sp.Repl, src(&ast.BinaryExpr{X: x.Y, Op: mir[neg[x.Op]], Y: x.X})); ok {
+		return "(!" + r + ")", true
+	}
+	return "", false
+}
+
 // subst replaces aliased identifiers by what they stand for (fresh nodes; the original tree is not modified).
 func (t *tr) subst(e ast.Expr) ast.Expr {
 	if len(t.aliases) == 0 || e == nil {
@@ -994,6 +1187,9 @@ func (t *tr) expr(e ast.Expr) string {
 		if c := t.nilCompare(x); c != "" {
 			return c
 		}
+		if r, ok := t.negRepl(x); ok {
+			return r
+		}
 		a, b := t.expr(x.X), t.expr(x.Y)
 		o := t.ops()
 		switch x.Op {
@@ -1054,6 +1250,19 @@ func (t *tr) expr(e ast.Expr) string {
 		case "time.Since":
 			if len(x.Args) == 1 {
 				return "(T.sub now_ " + t.expr(x.Args[0]) + ")"
+			}
+		}
+		// slices.Contains(X, v) is the search loop `for _, e := range X { if e == v { return true } }; return false` (Spec.RangeCond)
+		if norm(src(x.Fun)) == "slices.Contains" && len(x.Args) == 2 {
+			rx := src(x.Args[0])
+			if c, ok := lookup(t.sp.RangeCond, rx); ok {
+				elem := "elem"
+				if cn, ok := lookup(t.sp.RangeCond, "elem:"+rx); ok {
+					elem = cn
+				}
+				if want, ok := lookup(t.sp.RangeCond, "cond:"+rx); ok && (norm(want) == norm(elem+"=="+src(x.Args[1])) || norm(want) == norm(src(x.Args[1])+"=="+elem)) {
+					return c
+				}
 			}
 		}
 		// builtins max / min
@@ -1191,6 +1400,9 @@ func (t *tr) assigned(b []ast.Stmt, outer map[string]bool) {
 						if src(l) == ig {
 							skip = true
 						}
+					}
+					if !skip && t.droppedThrough(l) {
+						skip = true
 					}
 					if !skip {
 						out[t.lvalue(l)] = true
@@ -1348,6 +1560,9 @@ func (t *tr) ret(r *ast.ReturnStmt) string {
 					if strings.HasPrefix(name, pfx) || strings.HasPrefix(norm(src(c)), norm(pfx)) {
 						n, ok := t.sp.Status[src(c)]
 						if !ok {
+							n, ok = t.sp.Status[norm(src(c.Fun))+"(…)"] // the call, whatever its arguments are
+						}
+						if !ok {
 							failf(r, "status return: unknown status expression %s", src(c))
 						}
 						b := strings.Split(inp, "|")[0]
@@ -1379,6 +1594,23 @@ func (t *tr) ret(r *ast.ReturnStmt) string {
 		isErr := "true"
 		if id, ok := r.Results[len(r.Results)-1].(*ast.Ident); ok && id.Name == "nil" {
 			isErr = "false"
+		} else if t.sp.ErrFlow {
+			switch last := r.Results[len(r.Results)-1].(type) {
+			case *ast.Ident:
+				if last.Name == "err" {
+					if t.errKnown == 2 {
+						isErr = "false"
+					} else if t.errKnown == 0 && t.pendingErr != "" {
+						isErr = t.pendingErr
+					}
+				}
+			case *ast.CallExpr:
+				if nm := t.errCallName(t.subst(last)); nm != "" {
+					isErr = nm
+				} else if b, ok := t.inlineFails(last); ok {
+					isErr = b
+				}
+			}
 		}
 		return "(" + strings.Join(append([]string{st, isErr}, t.sp.StateVars...), ", ") + ")"
 	case "state":
@@ -1713,6 +1945,47 @@ func (t *tr) block(b []ast.Stmt, tail string, ind string) string {
 		if pure {
 			return t.block(rest, tail, ind)
 		}
+		if len(t.sp.LoopAnyReturn) > 0 {
+			c, ok := "", false
+			if x.Cond != nil {
+				c, ok = lookup(t.sp.LoopAnyReturn, src(t.subst(x.Cond)))
+			}
+			if !ok {
+				c, ok = t.sp.LoopAnyReturn["*"]
+			}
+			if ok {
+				var rets []*ast.ReturnStmt
+				ast.Inspect(x.Body, func(n ast.Node) bool {
+					if _, isLit := n.(*ast.FuncLit); isLit {
+						return false
+					}
+					if r, isRet := n.(*ast.ReturnStmt); isRet {
+						rets = append(rets, r)
+					}
+					return true
+				})
+				if len(rets) == 0 || containsBranch(x.Body.List) {
+					failf(s, "for loop: expected returns and no break/continue in the body")
+				}
+				// a return inside the loop that hands on `err` is an error return (it sits behind the loop's own `if err != nil`)
+				st := t.save()
+				t.pendingErr, t.errKnown = "", 1
+				first := ""
+				for i, r := range rets {
+					if n := len(r.Results); n == 0 || src(r.Results[n-1]) == "nil" {
+						failf(r, "for loop: a return that is not an error return")
+					}
+					v := t.ret(r)
+					if i == 0 {
+						first = v
+					} else if strings.Join(strings.Fields(v), " ") != strings.Join(strings.Fields(first), " ") {
+						failf(r, "for loop: the returns of the body differ (%s / %s)", first, v)
+					}
+				}
+				t.restore(st)
+				return "if " + c + " then\n" + ind + "  " + first + "\n" + ind + "else\n" + ind + t.block(rest, tail, ind)
+			}
+		}
 		failf(s, "unsupported statement %T: %s", s, src(s))
 	case *ast.RangeStmt:
 		// a search loop that records its hit in a flag, leaves with `break`, and is followed by `if <flag set> { return … }`
@@ -1817,6 +2090,19 @@ func (t *tr) block(b []ast.Stmt, tail string, ind string) string {
 		failf(s, "unsupported branch statement %s", src(s))
 	case *ast.DeclStmt:
 		gd, ok := x.Decl.(*ast.GenDecl)
+		if ok && gd.Tok == token.CONST {
+			// a local constant stands for its value
+			for _, sp := range gd.Specs {
+				vs := sp.(*ast.ValueSpec)
+				if len(vs.Values) != len(vs.Names) {
+					failf(s, "unsupported constant declaration")
+				}
+				for i, n := range vs.Names {
+					t.alias(n.Name, t.subst(vs.Values[i]))
+				}
+			}
+			return t.block(rest, tail, ind)
+		}
 		if !ok || gd.Tok != token.VAR {
 			failf(s, "unsupported declaration")
 		}
@@ -1858,6 +2144,34 @@ func (t *tr) block(b []ast.Stmt, tail string, ind string) string {
 						t.flags = map[string]string{}
 					}
 					t.flags[id.Name] = v
+				}
+			}
+		}
+		if t.sp.ErrFlow {
+			for _, l := range x.Lhs {
+				if id, ok := l.(*ast.Ident); ok && id.Name == "err" {
+					t.errKnown = 0 // whatever was known about err is about its previous value
+				}
+			}
+		}
+		if len(t.sp.UseEffect) > 0 {
+			if t.skipUse == s {
+				t.skipUse = nil
+			} else {
+				pre := ""
+				for _, r := range x.Rhs {
+					ast.Inspect(r, func(n ast.Node) bool {
+						if c, ok := n.(*ast.CallExpr); ok {
+							if eff, ok := t.sp.UseEffect[callName(c)]; ok {
+								pre += "let " + t.effectArgs(eff, c) + "\n" + ind
+							}
+						}
+						return true
+					})
+				}
+				if pre != "" {
+					t.skipUse = s
+					return pre + t.block(b, tail, ind)
 				}
 			}
 		}
@@ -1946,7 +2260,11 @@ func (t *tr) block(b []ast.Stmt, tail string, ind string) string {
 				}
 				pre := ""
 				if i := strings.Index(name, "|"); i >= 0 {
-					pre = "let " + name[i+1:] + "\n" + ind
+					eff := name[i+1:]
+					if c, isCall := x.Rhs[0].(*ast.CallExpr); isCall && strings.Contains(eff, "$") {
+						eff = t.effectArgs(eff, c)
+					}
+					pre = "let " + eff + "\n" + ind
 					name = name[:i]
 				}
 				t.pendingErr, t.errKnown = name, 0
@@ -1983,7 +2301,7 @@ func (t *tr) block(b []ast.Stmt, tail string, ind string) string {
 			allAliased := true
 			for i := range x.Lhs {
 				id, isId := x.Lhs[i].(*ast.Ident)
-				if !isId || !pureAccess(x.Rhs[i]) || t.inIgnoreLHS(id.Name) {
+				if !isId || !t.pureish(x.Rhs[i]) || t.inIgnoreLHS(id.Name) {
 					allAliased = false
 					break
 				}
@@ -2014,6 +2332,9 @@ func (t *tr) block(b []ast.Stmt, tail string, ind string) string {
 					if src(l) == ig || (len(t.aliases) > 0 && norm(src(t.subst(l))) == norm(ig)) { // also when written through a hoisted pure read
 						hit = true
 					}
+				}
+				if !hit && t.droppedThrough(l) {
+					hit = true
 				}
 				all = all && hit
 			}
@@ -2161,7 +2482,15 @@ func (t *tr) block(b []ast.Stmt, tail string, ind string) string {
 			}
 			st := t.save()
 			errTest := 0 // 1: the condition is `err != nil`, 2: `err == nil`
-			if x.Init == nil {
+			initErr := false // (Spec.ErrFlow) the test is about an `err` the init statement defines: it shadows the outer one inside the `if` only
+			if as, ok := x.Init.(*ast.AssignStmt); ok && t.sp.ErrFlow && as.Tok == token.DEFINE {
+				for _, l := range as.Lhs {
+					if id, ok := l.(*ast.Ident); ok && id.Name == "err" {
+						initErr = true
+					}
+				}
+			}
+			if x.Init == nil || initErr {
 				switch norm(src(x.Cond)) {
 				case "err!=nil":
 					errTest = 1
@@ -2172,9 +2501,20 @@ func (t *tr) block(b []ast.Stmt, tail string, ind string) string {
 			if errTest != 0 {
 				t.errKnown = errTest
 			}
+			if initErr {
+				if n := len(x.Body.List); n == 0 {
+					t.errKnown = 0
+				} else if _, isRet := x.Body.List[n-1].(*ast.ReturnStmt); !isRet {
+					t.errKnown = 0 // the branch runs on into statements where `err` is the outer one again
+				}
+			}
 			thenPart := t.block(append(append([]ast.Stmt{}, x.Body.List...), rest...), tail, ind+"  ")
 			t.restore(st)
-			if errTest != 0 {
+			if initErr {
+				if len(els) > 0 {
+					t.errKnown = 0
+				}
+			} else if errTest != 0 {
 				t.errKnown = 3 - errTest
 			}
 			elsePart := t.block(append(append([]ast.Stmt{}, els...), rest...), tail, ind)
